@@ -95,7 +95,8 @@ fn negative_control(cx: &mut CaseCtx, prop: &str, kind: Kind, obs: &[u8], rt: &R
             let mut k = r.usize_below(bad.len());
             // never a masked byte; and never the Length field of a CEDT that carries the known
             // RDPAS deviation (a flipped Length bit could make that Length *correct*)
-            if judge::masked(kind, k) || (kind == Kind::Cedt && rt.rdpas > 0 && (4..8).contains(&k)) {
+            let in_rdpas_len = kind == Kind::Cedt && rt.entries.iter().any(|e| e.name == "cedt.rdpas" && (k == e.off + 2 || k == e.off + 3));
+            if judge::masked(kind, k) || in_rdpas_len || (kind == Kind::Cedt && rt.rdpas > 0 && (4..8).contains(&k)) {
                 k = 0;
             }
             bad[k] ^= 1 << r.below(8);
